@@ -72,12 +72,71 @@ Print Assumptions C17_codegen_semantics.
    symbols with exponents) denotes |number prefactor| * symbols. *)
 Theorem C17_prefactor_value :
   forall (S : Scalar) (T : tmodel S) (hf : bool) (be : backend) (nums : list numarg)
-         (syms : list (string * nat)) (pf : list pfac),
+         (syms : list (string * Z)) (pf : list pfac),
     format_prefactor hf be nums syms = Ok pf ->
     kprod (map (pfac_val S T) pf) =
     kmul S (kprod (map (numarg_val S T) nums)) (syms_val S T syms).
 Proof. exact prefactor_value. Qed.
 Print Assumptions C17_prefactor_value.
+
+(* ... and it denotes the full symbolic prefactor, divisions included, when no
+   symbol has a negative exponent (range(exponent) prints nothing for 1/x;
+   the code now refuses such terms, see C17_emitted_prefactor_nonneg) *)
+Theorem C17_prefactor_value_exact :
+  forall (S : Scalar) (T : tmodel S) (hf : bool) (be : backend) (nums : list numarg)
+         (syms : list (string * Z)) (pf : list pfac),
+    syms_nonneg syms = true -> format_prefactor hf be nums syms = Ok pf ->
+    kprod (map (pfac_val S T) pf) =
+    kmul S (kprod (map (numarg_val S T) nums)) (syms_true S T syms).
+Proof. exact prefactor_value_exact. Qed.
+Print Assumptions C17_prefactor_value_exact.
+
+(* the code's own refusal ("Prefactors not implemented for divisions")
+   establishes syms_nonneg for every emitted prefactor ... *)
+Theorem C17_emitted_prefactor_nonneg :
+  forall (hf : bool) (be : backend) (nums : list numarg) (syms : list (string * Z)) (pf : list pfac),
+    format_prefactor hf be nums syms = Ok pf -> syms_nonneg syms = true.
+Proof. exact emitted_prefactor_nonneg. Qed.
+Print Assumptions C17_emitted_prefactor_nonneg.
+
+(* ... so every emitted prefactor denotes |number| * symbolic prefactor,
+   divisions included, without side condition *)
+Theorem C17_prefactor_value_emitted :
+  forall (S : Scalar) (T : tmodel S) (hf : bool) (be : backend) (nums : list numarg)
+         (syms : list (string * Z)) (pf : list pfac),
+    format_prefactor hf be nums syms = Ok pf ->
+    kprod (map (pfac_val S T) pf) =
+    kmul S (kprod (map (numarg_val S T) nums)) (syms_true S T syms).
+Proof. exact prefactor_value_emitted. Qed.
+Print Assumptions C17_prefactor_value_emitted.
+
+(* the prefactor is refused exactly for a division by a symbol or an
+   unsupported number *)
+Theorem C17_refusal_exact_prefactor :
+  forall (hf : bool) (be : backend) (nums : list numarg) (syms : list (string * Z)),
+    format_prefactor hf be nums syms = Refuse <->
+    syms_nonneg syms = false \/
+    exists a, In a nums /\ (a = NOther \/ (exists n, a = NSqrt n) /\ hf = false).
+Proof. exact refusal_exact_prefactor. Qed.
+Print Assumptions C17_refusal_exact_prefactor.
+
+(* the scheme search (optimised or not) refuses a term exactly if one of its
+   non-number objects has a negative exponent -- symbols included: the test
+   precedes the symbol skip -- or is neither symbol, tensor nor delta *)
+Theorem C17_refusal_exact_guard :
+  forall objs : list (okind * Z),
+    (scheme_guard objs = Refuse <-> existsb offending objs = true) /\
+    (scheme_guard objs = Ok tt <-> existsb offending objs = false).
+Proof. exact refusal_exact_guard. Qed.
+Print Assumptions C17_refusal_exact_guard.
+
+(* hence a line with a contraction is only emitted for terms without division *)
+Theorem C17_emitted_contraction_no_division :
+  forall (cfg : tnames) (hf : bool) (be : backend) (t : cterm) (l : line),
+    ct_hasidx t = true -> gen_term cfg hf be t = Ok l ->
+    existsb offending (ct_objs t) = false.
+Proof. exact emitted_contraction_no_division. Qed.
+Print Assumptions C17_emitted_contraction_no_division.
 
 (* "Apply (1 +- P_ij P_ab ...) to:" evaluates to X plus, for every listed
    product of transpositions, sign * X with the transpositions applied to the
